@@ -14,8 +14,8 @@
 
 using namespace Vector::BLF;
 
-struct MCfg { bool writing; uint32_t C; long S; bool shipped; long B; uint32_t Q; int level; int stall_every; bool damaged; bool aligned; bool padcut = false;
-    std::string str() const { std::ostringstream s; s << (writing ? "write" : "read") << " C=" << C << " S=" << S << " B=" << (shipped ? 0x20000 : B) << " Q=" << (shipped ? 10 : Q) << " level=" << level << " stall_every=" << stall_every << (damaged ? " damaged-record" : "") << (aligned ? " boundary-aligned-bursts" : "") << (padcut ? " containers-end-in-padding" : ""); return s.str(); } };
+struct MCfg { bool writing; uint32_t C; long S; bool shipped; long B; uint32_t Q; int level; int stall_every; bool damaged; bool aligned; bool padcut = false; bool shrink = false;
+    std::string str() const { std::ostringstream s; s << (writing ? "write" : "read") << " C=" << C << " S=" << S << " B=" << (shipped ? 0x20000 : B) << " Q=" << (shipped ? 10 : Q) << " level=" << level << " stall_every=" << stall_every << (damaged ? " damaged-record" : "") << (aligned ? " boundary-aligned-bursts" : "") << (padcut ? " containers-end-in-padding" : "") << (shrink ? " container-size-lowered-mid-session" : ""); return s.str(); } };
 
 static MCfg make_cfg(uint64_t seed, long ci) {
     Rng r(Rng::mix(seed ^ 0xC12, (uint64_t)ci));
@@ -33,6 +33,8 @@ static MCfg make_cfg(uint64_t seed, long ci) {
     if (c.aligned) c.S = (long)c.C / 8 - 48;
     // read side: every container ends inside (or right behind) the alignment padding of an object, so the reader leaves each
     // container by skipping, not by reading
+    // write side: the application lowers the container size while the session is running (8C at open(), C after an eighth of the objects)
+    c.shrink = c.writing && !c.aligned && (ci % 16) < 8;
     c.padcut = !c.writing && !c.damaged && (ci % 16) < 8;
     if (c.padcut) c.S += (2 - (c.S + 48) % 4 + 4) % 4;      // objectSize % 4 == 2: two padding bytes after every object
     return c;
@@ -77,7 +79,7 @@ static Meas run_one(const MCfg & c, int N, const std::string & path, uint64_t ss
             if (expect_quiescent && sched_blocked_in_wait() >= 2) m.quiescent_samples++;
             // read: buffered data + the container being consumed + the one being appended; write: containers are allocated at full size,
             // so the consumed one still held, the one being read and the one being filled count fully
-            size_t bound = (size_t)std::max(B, S) + (c.writing ? 3 : 2) * (size_t)c.C;
+            size_t bound = (size_t)std::max(B, S) + (c.writing ? 3 : 2) * (size_t)c.C * (c.shrink ? 8 : 1);
             if (bytes > bound && m.err.empty()) m.err = "held " + std::to_string(bytes) + " bytes in " + std::to_string(cont) + " containers > max(B,S)+" + (c.writing ? "3" : "2") + "C = " + std::to_string(bound);
         };
         if (!c.writing) {
@@ -95,9 +97,10 @@ static Meas run_one(const MCfg & c, int N, const std::string & path, uint64_t ss
             if (c.damaged) for (int k = 0; k < 300; k++) sample(false);     // the application lingers after end of data: every poll lets the workers run as far as they can
             f.close();
         } else {
-            f.compressionLevel = c.level; f.setDefaultLogContainerSize(c.C);
+            f.compressionLevel = c.level; f.setDefaultLogContainerSize(c.shrink ? 8 * c.C : c.C);
             f.open(path.c_str(), std::ios_base::out);
             for (long i = 0; i < nobj; i++) {
+                if (c.shrink && i == std::max<long>(1, nobj / 8)) f.setDefaultLogContainerSize(c.C);
                 AppText * t = new AppText; t->objectTimeStamp = (uint64_t)i; t->text.assign((size_t)c.S, (char)('a' + i % 26));
                 f.write(t);
                 if (i % c.stall_every == 0) sample(false);
@@ -134,7 +137,7 @@ int main(int argc, char ** argv) {
     for (long ci = from; ci < to; ci++) {
         hc::begin_case(std::to_string(ci));
         MCfg c = make_cfg(seed, ci);
-        long B0 = c.B, S0 = c.S + 48; long sat0 = 2 * (std::max(B0, S0) + 2 * (long)c.C + (long)(c.shipped ? 10 : c.Q) * S0);
+        long B0 = c.B, S0 = c.S + 48; long cbig = (long)c.C * (c.shrink ? 8 : 1); long sat0 = 2 * (std::max(B0, S0) + 2 * cbig + (long)(c.shipped ? 10 : c.Q) * S0);
         int N0 = (int)std::max<long>(4, (sat0 + c.C - 1) / c.C);
         int Ns[] = {N0, 4 * N0, 16 * N0};
         std::vector<std::pair<int, Meas>> ms;
@@ -160,7 +163,7 @@ int main(int argc, char ** argv) {
             // (compressed + inflated copy) and a full object queue plus the object being built. Growth with N is linear and exceeds this
             // within 12*N0 containers (N0*C is at least twice the saturation volume).
             long qcap = c.shipped ? 10 : (long)c.Q;
-            long range = 2 * (std::max(B0, S0) + 2 * (long)c.C) + 2 * (long)c.C + (qcap + 1) * S0 + 65536;
+            long range = 2 * (std::max(B0, S0) + 2 * cbig) + 2 * cbig + (qcap + 1) * S0 + 65536;
             if (d > range)
                 hc::viol(std::string(c.writing ? "write" : "read") + ":peak-heap-grows-with-N", "peak(N=" + std::to_string(ms[j].first) + ") - peak(N=" + std::to_string(ms[i].first) + ") = " + std::to_string(d) + " > legitimate dynamic range " + std::to_string(range) + "; " + cv.str());
         }
